@@ -3,7 +3,7 @@ PROP = {
     "props_v": "Props/C16.v",
     "extra_v": ["ClientEnergyRun.v"],
     "run_vo": "ClientEnergyRun.vo",
-    "suites": [("test", "energy")],
+    "suites": [("test", "energy"), ("prod", "ctdefaults"), ("test", "ctdefaults")],
     "trusted_extra": [
         "Flocq 4.1.0 (IEEE-754 binary64: b64_of_bits, b64_mult, b64_div, b64_compare, Btrunc) as the meaning of Go's float64 arithmetic on amd64 (no FMA contraction for x*y/z)",
         "standard-library axioms under the C16 theorems, exactly as Print Assumptions lists them (c16_total, c16_unchecked_panics, c16_slot, c16_value; c16_ct is closed): ClassicalDedekindReals.sig_not_dec, ClassicalDedekindReals.sig_forall_dec, FunctionalExtensionality.functional_extensionality_dep, Classical_Prop.classic -- they enter through Flocq's real-number layer (the binary64 operations carry boundedness proofs stated over R; B2R / Btrunc_correct / Bcompare_correct)",
